@@ -17,6 +17,9 @@ What this dialect adds to "fmd" (doc of each hook below):
   * `SmallInts::from_elem(v, n)` / `lcp.set(i, v)` on the LCP container read as the vector of its `isize` values
     (`lcp_container_source_exact` of Thm/C03.lean says the translated container reads back like one)
   * loop sources `xs.iter().enumerate().take(n)`, patterns `(p, &r)`
+  * the parameters of loop helpers are ordered by declaration, not by first use (`captured`)
+  * `b as usize` of a `bool`, `Vec::with_capacity(n)`, calls by path of translated functions of another generated file
+    (`path_calls`), string literals continued with `\` + newline
   * `--selftest [--lean]`
 """
 import sys, os, re, argparse
@@ -121,6 +124,14 @@ def _sa_classes():
                     self.err("`Vec::with_capacity(%r)`" % (nt,), e)
                 return "([] : %s)" % expected.lean(), expected
             return BaseF.call(self, e, code, expected)
+
+        def captured(self, node, state_names, local_names):
+            """the parameters of a loop helper in *declaration* order (fields, parameters, then `let`s, outer scopes first)
+            instead of the order of first use: commuting the operands of a condition or of a sum no longer permutes the
+            signature the theorems are stated for"""
+            caps = BaseF.captured(self, node, state_names, local_names)
+            order = [id(v) for sc in self.scopes for v in sc.values()]
+            return sorted(caps, key=lambda v: order.index(id(v)) if id(v) in order else len(order))
 
         def expr(self, e, code, expected=None):
             if e.kind == "cast":
